@@ -105,13 +105,81 @@ fn run_with(case: &SearchCase, term: TerminationModel) -> (Result<PlainResult, E
     (r, calls)
 }
 
+/// Yen's algorithm (helper process): every sub-search carries the instance's iteration limit.
+/// Swept from 0 upwards, a limited run must either be stopped with the explicit error naming
+/// the limit or return exactly what the unlimited run returns - never fewer or other routes.
+/// (What Yen returns without a limit is judged by C13 and has listed findings; here only the
+/// relation between the limited and the unlimited run is judged.)
+fn check_yens(sc: &SearchCase, o: &mut Outcome) {
+    o.label("kind-yens-iterations");
+    let built = match build_si(&sc.spec, BuildOpts::default()) {
+        Ok(b) => b,
+        Err(_) => return,
+    };
+    let unlimited = match run_search(sc, &built.si) {
+        RunOutcome::Done(Ok(r)) => r,
+        _ => {
+            o.label("yens-unlimited-run-not-usable");
+            return;
+        }
+    };
+    let fp_u = fingerprint_n(&unlimited, usize::MAX);
+    match run_yens_isolated_limited(sc, None) {
+        RunOutcome::Done(Ok(r)) if fingerprint_n(&r, usize::MAX) == fp_u => {}
+        _ => {
+            o.label("yens-not-repeatable-not-judged");
+            return;
+        }
+    }
+    let top = (2 * sc.spec.net.n() as u64 + 4).min(40);
+    let mut stopped = false;
+    for l in 0..=top {
+        match run_yens_isolated_limited(sc, Some(l)) {
+            RunOutcome::Done(Err(ErrKind::Terminated(msg))) => {
+                stopped = true;
+                if !msg.contains("iteration limit") {
+                    o.fail("C10/yens/termination-error-does-not-name-the-limit", json!({"limit": l, "message": msg}));
+                    return;
+                }
+            }
+            RunOutcome::Done(Ok(r)) => {
+                if fingerprint_n(&r, usize::MAX) != fp_u {
+                    o.fail(
+                        "C10/yens/result-under-a-limit-differs-from-the-unlimited-result",
+                        json!({"limit": l,
+                               "limited_routes": r.routes.iter().map(|rt| route_ids(rt)).collect::<Vec<_>>(),
+                               "unlimited_routes": unlimited.routes.iter().map(|rt| route_ids(rt)).collect::<Vec<_>>()}),
+                    );
+                    return;
+                }
+            }
+            RunOutcome::Done(Err(e)) => {
+                o.fail(
+                    "C10/yens/result-under-a-limit-differs-from-the-unlimited-result",
+                    json!({"limit": l, "limited_error": format!("{:?}", e),
+                           "unlimited_routes": unlimited.routes.iter().map(|rt| route_ids(rt)).collect::<Vec<_>>()}),
+                );
+                return;
+            }
+            _ => {
+                // helper killed on its wall budget or not available: nothing to judge
+                o.label("yens-limited-run-not-usable");
+                return;
+            }
+        }
+    }
+    if stopped && unlimited.routes.len() >= 2 {
+        o.nontrivial = true;
+    }
+}
+
 impl Prop for C10 {
     type Case = C10Case;
     fn id(&self) -> &'static str {
         "C10"
     }
     fn rule(&self) -> String {
-        "generated: network x query (Dijkstra, A* any factor, single-via k-shortest paths whose sub-searches are limited individually; forward/reverse; with/without destination) x limit kind; for iteration, solution-size and combined limits the limit value is swept exhaustively from 0 to what the unlimited search needs + 3, through the configuration builder; expansions are observed by a counting frontier model, tree sizes are recomputed by replaying the recorded expansion order in a reference relaxation; runtime limits use a traversal model that sleeps 3x the budget at a generated call. non-trivial = a limit value strictly between 0 and the needed amount on a search that needs >= 3 expansions (or a runtime case whose sleep happens before the search would end)".to_string()
+        "generated: network x query (Dijkstra, A* any factor, single-via and Yen k-shortest paths whose sub-searches are limited individually - Yen only as limited-versus-unlimited relation; forward/reverse; with/without destination) x limit kind; for iteration, solution-size and combined limits the limit value is swept exhaustively from 0 to what the unlimited search needs + 3, through the configuration builder; expansions are observed by a counting frontier model, tree sizes are recomputed by replaying the recorded expansion order in a reference relaxation; runtime limits use a traversal model that sleeps 3x the budget at a generated call. non-trivial = a limit value strictly between 0 and the needed amount on a search that needs >= 3 expansions (or a runtime case whose sleep happens before the search would end)".to_string()
     }
     fn cases(&self, tier: Tier) -> u32 {
         tier.pick(30_000, 600_000)
@@ -128,6 +196,7 @@ impl Prop for C10 {
         let algs = prop_oneof![
             4 => base_alg(),
             1 => (1usize..4, base_alg()).prop_map(|(k, u)| AlgSpec::SingleVia { k, underlying: Box::new(u), sim: None, term: None }),
+            1 => (2usize..4, base_alg()).prop_map(|(k, u)| AlgSpec::Yens { k, underlying: Box::new(u), sim: None, term: None }),
         ]
         .boxed();
         let kind = prop_oneof![
@@ -168,6 +237,10 @@ impl Prop for C10 {
         o.label(format!("alg-{}", alg));
         o.label_if(sc.reverse, "reverse");
         o.label_if(sc.d.is_none(), "no-destination");
+        if sc.alg.is_yens() {
+            check_yens(sc, &mut o);
+            return o;
+        }
         let (unlimited, calls_u) = run_with(sc, TerminationModel::IterationsLimit { limit: 1_000_000_000 });
         let exp_u = expansions(sc, &calls_u);
         let cmp_routes = if sc.alg.is_ksp() { 1 } else { usize::MAX };
